@@ -80,8 +80,10 @@ func checkWireMessage(m WireMsg) *Violation {
 
 func runC14(c c14Case) (*Violation, string) {
 	ping := time.Duration(c.PingMs) * time.Millisecond
+	// (in the close-during-own-write cases the server does not ping: a socket closed with unread inbound data pending
+	// discards its send buffer, and what the client wrote last would never show on the wire)
 	rig, err := NewRig(RigOpts{Reverse: true, ClientPing: ping, ClientTimeout: 100*ping + 300*time.Millisecond, ServerPing: ping + time.Millisecond,
-		BackoffMin: 3 * time.Millisecond, BackoffMax: 10 * time.Millisecond})
+		ServerPingOff: c.CloseMid > 0 && !c.StallReq, BackoffMin: 3 * time.Millisecond, BackoffMax: 10 * time.Millisecond})
 	if err != nil {
 		return nil, "rig"
 	}
